@@ -24,10 +24,10 @@ INTERVALS = drv("intervals", ["props/intervals.cpp"])
 CONV_FUZZ = {"name": "conv_fuzz", "sources": ["props/conv_fuzz.cpp", "engine/convsim.cpp", "shim/shim.c"], "flavour": "fuzz", "libfuzzer": True,
              "ldflags": " -Wl,--wrap=lrtr_get_monotonic_time,--wrap=sleep,--wrap=lrtr_dbg" + LOCKWRAPS,
              "deps": ["engine/convsim.hpp", "engine/convsim_model.inc", "engine/convsim_mock.inc", "engine/convsim_run.inc", "engine/judge.hpp",
-                      "engine/cache.hpp", "engine/script.hpp", "engine/wire.hpp", "engine/convsim_battery.inc"]}
+                      "engine/cache.hpp", "engine/script.hpp", "engine/wire.hpp", "engine/convsim_battery.inc", "engine/nontrivial.hpp"]}
 CONV = drv("conv", ["props/conv.cpp", "engine/convsim.cpp"], ldflags="-lrapidcheck" + WRAPS + LOCKWRAPS,
            deps=["engine/convsim.hpp", "engine/convsim_model.inc", "engine/convsim_mock.inc", "engine/convsim_run.inc", "engine/judge.hpp",
-                 "engine/cache.hpp", "engine/script.hpp", "engine/wire.hpp", "engine/convsim_battery.inc"])
+                 "engine/cache.hpp", "engine/script.hpp", "engine/wire.hpp", "engine/convsim_battery.inc", "engine/nontrivial.hpp"])
 
 CONV_GEN = "rapidcheck generates conversations for the simulator (engine/): a configuration (valid refresh/expire/retry, one of 4 interval modes, session id, serial base incl. values around 2^31 and 2^32-1, initial cache data, records of a second cache) and 0..14 steps, one per query the client completes. A step scripts: failing open() calls and time consumed in open(); how the query write behaves (whole / 1-3 byte partial writes / error / would-block / interrupted / partial-then-error); 0..2 data-version advances of the cache (toggles over a universe of 24 nested IPv4, 16 nested IPv6 records and 12 router keys, optional 120/230 bulk records), cache restarts; the response kind (correct / Cache Reset / Error Report with any code, version byte, text, encapsulated PDU, also mid-payload / no answer / one of 15 mutations of a correct response incl. a second mutation / version-0 answer / hostile-but-well-formed fields / raw bytes); recv chunking (whole, 1-byte, irregular, 7-byte); and what happens when the client waits on an empty connection (timeout, EINTR, hang-up, transport error, Serial Notify, stop+restart of the socket). After the last step the cache answers honestly. The real state machine (rtr_start -> rtr_fsm_start) runs on the mock transport with a simulated clock; an independent strict decoder + protocol model ('judge') decides what a correct client must conclude. "
 CONV_A = ['the mock transport obeys the transport contract (never 0 bytes, never more than asked, errors as tcp_transport returns them)', 'clock = lrtr_get_monotonic_time and sleep() replaced at link time (--wrap); one FSM thread does all the work, so a run is a deterministic function of its script', 'the judge (engine/judge.hpp) is a correct reading of RFC 8210 framing and of the property statements; where the statement leaves room the weaker reading is used (DESIGN.md §10)']
@@ -404,6 +404,13 @@ CHECKS["C18"]["stages"][-1]["quick"]["args"] = ["--maxk", "1200"]
 CHECKS["C18"]["engine"] = "rapidcheck + per-fault re-execution + convsim"
 CHECKS["C18"]["rule"] += (" Stage conv: for generated conversations (see C03) run 0 counts the allocations the library makes while synchronising (temporary PDU stores incl. >100 PDU payloads, shadow tables, hash-table growth, undo paths); "
                           "a conversation that ends converged must leave the ledger empty; then every allocation index (every k for N <= 1500, else 1500 evenly spaced) is failed once: no crash, and all conversation oracles (either-or of C03, callbacks, convergence) must still hold.")
+
+# thorough tier only: coverage-guided exploration (libFuzzer over the byte encoding of scripts) with the property's own oracles in the target
+for _p in ("C03", "C05", "C07", "C08", "C13", "C14", "C17"):
+    CHECKS[_p]["stages"].append({"type": "libfuzzer", "driver": CONV_FUZZ, "replay_driver": CONV, "tiers": ("thorough",), "seed_prop": "C04",
+                                 "thorough": {"procs": 16, "runs": 120000, "max_len": 2048, "timeout": 7200}})
+    CHECKS[_p]["rule"] += (" Thorough tier adds a libFuzzer stage (ASan+UBSan, coverage-guided) over the byte encoding of scripts with the same engine and oracles; "
+                           "half of the workers start from the committed seed corpus, half from an empty one.")
 
 # C06 tier B: real reader threads against the reload sequence (copy aside, load, swap, diff) — linearizability oracle (ASan) and races (TSan)
 CHECKS["C06"]["stages"] += [
